@@ -137,4 +137,20 @@ CHECKS = {
         "level_text": "Seeded exploration of schedules; every recorded history is decided exactly by a linearizability search per document, plus direct clauses for never-written vectors and vector/metadata pairs from different writes.",
         "level_note": "trusted base: lock model + shim, the history recorder, the register model; schedules sampled",
     },
+    "C09": {
+        "level": "exploration",
+        "design_ref": "DESIGN.md section 5/C09",
+        "engine": "E1 simlibc + E2 simsched",
+        "technique": "deterministic simulation: seeded scheduler with scheduling points at every lock operation and every intercepted file-system call; after join the journalled directory is recovered with the real recover() and compared with the live census; acknowledged writes checked for a linearisation",
+        "rule": "programs = 1-2 writer threads x 2-5 operations {insert/overwrite, delete, metadata replace, batch delete} on 1-3 shared ids + one thread issuing 1-3 create_snapshot calls, "
+                "after a 0-4 operation warm-up; HnswBackend with snapshot interval {0,1,2,3}, rotation threshold {1 B, 120 B, 200 B, 100 MiB}, capacity {4,6,16,1000} (tombstone compaction inside insert), "
+                "fsync {Always, Never, Periodic(0)}; 12 seeded schedules per program. After join: recover(kill image of the journal) == live census (bit exact); final live state of every id explained by "
+                "some real-time-respecting order of the acknowledged writes; MANIFEST latest_snapshot_wal_seq never decreases along the journal. evaluations = schedules judged. "
+                "distinct_nontrivial = distinct decision-trace hashes among runs in which >=1 snapshot was published during the race.",
+        "assumptions": ["runs ending in a deadlock are attributed to C08 and dropped here", "TieredEngine-level races (drain vs snapshot) are covered only through C05/C08"],
+        "expected_probes": ["snapshot_published_during_race", "segments_compacted_during_race", "segments_created_during_race", "stale_snapshot_discarded"],
+        "tiers": {"quick": {"runs_per_worker": 1000000, "budget_s": 40}, "thorough": {"runs_per_worker": 10000000, "budget_s": 900}},
+        "level_text": "Seeded exploration of interleavings at lock and file-system-call granularity of writers with manual and automatic snapshots, rotation and compaction; each run judged exactly by a real recovery of the journalled directory.",
+        "level_note": "trusted base: lock model, libc journal, reference census; schedules sampled",
+    },
 }
